@@ -18,15 +18,15 @@ Definition public_of_sx (s : sx) : option cmp_public :=
       do n <- as_N n; do s <- as_N s; do t <- as_N t; Some (mkCmpPublic e g pn n s t)
   | _ => None end.
 
-(* config.Config: (threshold rid_opt ((id public) ...)) *)
+(* config.Config: (threshold rid_opt #chainkey ((id public) ...)) *)
 Definition config_of_sx (s : sx) : option cmp_config :=
   match s with
-  | Li [At t; rid; pubs] =>
+  | Li [At t; rid; Bs ck; pubs] =>
       do rid <- as_opt as_bytes rid;
       do pubs <- as_list_of (fun e => match e with
                                       | Li [Bs id; p] => do p <- public_of_sx p; Some (id, p)
                                       | _ => None end) pubs;
-      Some (mkCmpConfig t rid pubs)
+      Some (mkCmpConfig t rid ck pubs)
   | _ => None end.
 
 (* hval encoding: (tag args...) *)
